@@ -31,6 +31,26 @@ def is_scalar(ty):
     return t in SCALAR
 
 
+def tuple_arity(ty):
+    """number of fields of a tuple type `(A, B, ..)` (references stripped); 0 for anything else"""
+    t = ty
+    while t.startswith("&"):
+        t = t[1:].lstrip()
+        if t.startswith("mut "):
+            t = t[4:]
+    if not (t.startswith("(") and t.endswith(")")) or t == "()":
+        return 0
+    depth, n = 0, 1
+    for ch in t[1:-1]:
+        if ch in "<([":
+            depth += 1
+        elif ch in ">)]":
+            depth -= 1
+        elif ch == "," and depth == 0:
+            n += 1
+    return n
+
+
 class Taint:
     def __init__(self, prog, sanitizers=(), opaque_extra=(), track_scalars=False):
         self.prog = prog
@@ -53,7 +73,28 @@ class Taint:
                     crate_field = ("f", e["owner"], e.get("variant"), e.get("name", e.get("i")))
         if crate_field:
             return crate_field
+        # a field of a tuple-typed LOCAL is its own node (`let (pieces, used) = plan(..)`: what taints `used` does not taint `pieces`)
+        first = next((e for e in pl["p"] if e["k"] != "deref"), None)
+        if first is not None and first["k"] == "field" and first.get("owner") == "(tuple)" and tuple_arity(b.locals[pl["l"]]["ty"]):
+            return ("t", b.name, pl["l"], first["i"])
         return ("l", b.name, pl["l"])
+
+    def whole_tuple(self, b, pl):
+        """arity when the place is a whole tuple-typed local (possibly behind derefs), else 0"""
+        if pl is None or any(e["k"] != "deref" for e in pl["p"]):
+            return 0
+        return tuple_arity(b.locals[pl["l"]]["ty"])
+
+    def nodes_of_op(self, b, op):
+        """all nodes a read of the operand draws from: its node, plus every field node when it is a whole tuple local"""
+        n = self.node_of_op(b, op)
+        if n is None:
+            return []
+        out = [n]
+        if op["k"] in ("copy", "move"):
+            for i in range(self.whole_tuple(b, op["pl"])):
+                out.append(("t", b.name, op["pl"]["l"], i))
+        return out
 
     def node_of_op(self, b, op):
         if op["k"] in ("copy", "move"):
@@ -88,6 +129,9 @@ class Taint:
         prog = self.prog
         for b in prog.bodies.values():
             live = C.live(b)
+            for l, decl in enumerate(b.locals):
+                for i in range(tuple_arity(decl["ty"])):
+                    self.edge(("l", b.name, l), ("t", b.name, l, i))      # a whole-value write (call result, payload) reaches every field
             for bb, blk in enumerate(b.blocks):
                 if blk["cleanup"] or bb not in live:
                     continue
@@ -100,6 +144,8 @@ class Taint:
                     self._call(b, bb, t)
             # return place
             self.edge(("l", b.name, 0), ("r", b.name))
+            for i in range(tuple_arity(b.locals[0]["ty"])):
+                self.edge(("t", b.name, 0, i), ("r", b.name))
 
     def _stmt(self, b, st):
         lhs = st["lhs"]
@@ -116,20 +162,53 @@ class Taint:
             src = self.node_of_op(b, rv["op"])
             if src is None and self._const_is_text(rv["op"]):
                 src = ("c", b.name, st["span"]["line"], C.op_const(rv["op"]))
-            self.edge(src, dst, where)
+            sp = C.op_place(rv["op"])
+            n_src, n_dst = self.whole_tuple(b, sp), self.whole_tuple(b, lhs)
+            if n_src and n_src == n_dst:
+                # tuple to tuple: field by field
+                for i in range(n_src):
+                    self.edge(("t", b.name, sp["l"], i), ("t", b.name, lhs["l"], i), where)
+                self.edge(src, dst, where)
+            else:
+                for n in (self.nodes_of_op(b, rv["op"]) or [src]):
+                    self.edge(n, dst, where)
         elif k in ("ref", "rawptr", "copyforderef"):
             src = self.node_of_place(b, rv["pl"])
             self.edge(src, dst, where)
             if rv.get("mut") or k == "rawptr":
                 self.edge(dst, src, where)      # writes through the reference reach the referent
+            n_src, n_dst = self.whole_tuple(b, rv["pl"]), self.whole_tuple(b, lhs)
+            if n_src and n_src == n_dst:
+                for i in range(n_src):
+                    self.edge(("t", b.name, rv["pl"]["l"], i), ("t", b.name, lhs["l"], i), where)
+                    if rv.get("mut") or k == "rawptr":
+                        self.edge(("t", b.name, lhs["l"], i), ("t", b.name, rv["pl"]["l"], i), where)
+            elif n_src:
+                for i in range(n_src):
+                    self.edge(("t", b.name, rv["pl"]["l"], i), dst, where)
         elif k == "aggregate":
             a = rv["agg"]
             if a["k"] == "adt" and a["adt"] in ("std::result::Result", "std::ops::ControlFlow") and a.get("variant") in ("Err", "Break"):
                 return
+            tuple_dst = a["k"] == "tuple" and self.whole_tuple(b, lhs) == len(rv["ops"]) and not lhs["p"]
             for i, op in enumerate(rv["ops"]):
                 src = self.node_of_op(b, op)
                 if op["k"] == "const" and self._const_is_text(op):
                     src = ("c", b.name, st["span"]["line"], C.op_const(op))
+                extra = [n for n in self.nodes_of_op(b, op) if n != src]
+                if tuple_dst:
+                    for n in [src] + extra:
+                        self.edge(n, ("t", b.name, lhs["l"], i), where)
+                    continue
+                for n in extra:
+                    # a whole tuple stored into something else: all of its fields go along
+                    if a["k"] == "adt" and a["adt"] in self.prog.adts:
+                        adt_ = self.prog.adts[a["adt"]]
+                        self.edge(n, ("f", a["adt"], a["variant"] if adt_["kind"] == "Enum" else None, a["fields"][i] if i < len(a["fields"]) else i), where)
+                    elif a["k"] == "closure":
+                        self.edge(n, ("u", a["def"], i), where)
+                    else:
+                        self.edge(n, dst, where)
                 if a["k"] == "adt" and a["adt"] in self.prog.adts:
                     # a crate ADT value is represented by its (global, object-insensitive) field nodes only:
                     # every read of it goes through node_of_place -> field node, so no container edge is needed
@@ -158,6 +237,15 @@ class Taint:
             n = self.node_of_op(b, a)
             if n is None and self._const_is_text(a):
                 n = ("c", b.name, t["span"]["line"], C.op_const(a))
+            extra = [x for x in self.nodes_of_op(b, a) if x != n]
+            if extra:
+                # one synthetic node stands for "the whole tuple as passed here": the local's own node and every field flow into it
+                syn = ("a", b.name, bb, i)
+                for x in [n] + extra:
+                    self.edge(x, syn, where)
+                if i < len(t.get("arg_tys", [])) and t["arg_tys"][i]["ty"].startswith("&mut"):
+                    self.edge(syn, n, where)
+                n = syn
             arg_nodes.append(n)
         if any(n in self.sanitizers for n in names):
             return
@@ -270,4 +358,8 @@ def fmt_node(n):
         return "upvar %s#%s" % (n[1].rsplit("::", 2)[-2] if "::" in n[1] else n[1], n[2])
     if n[0] == "c":
         return "const %s @%s:%s" % (n[3], n[1].rsplit("::", 1)[-1], n[2])
+    if n[0] == "t":
+        return "%s::_%s.%s" % (n[1].rsplit("::", 2)[-1], n[2], n[3])
+    if n[0] == "a":
+        return "arg#%s of the call in %s bb%s" % (n[3], n[1].rsplit("::", 2)[-1], n[2])
     return str(n)
